@@ -484,6 +484,51 @@ func txFault(r *rng, add func(violation)) {
 	}
 }
 
+// txOpenIter: an Iterator of a transaction's query is still open (not closed, perhaps not read to the end)
+// when Commit or Rollback is called: the call reaches the driver (exactly one finish on the transaction's
+// connection) and only afterwards everything fails with ErrTXDone.
+func txOpenIter(r *rng, add func(violation)) {
+	desc := fmt.Sprintf("tx with an open iterator seed-state %d", r.s)
+	viol := func(prop, name, detail string) { add(violation{prop, name, hx(desc), detail}) }
+	w := newTxWorld(r, viol)
+	defer func() { w.db.PlainDB().Close(); dropFakeDB(w.f.name) }()
+	kind := []int{1, 3}[r.intn(2)]
+	it := w.tx.Query(context.Background(), txStmts[kind], txArgs(kind, r)...).Iter()
+	switch r.intn(3) {
+	case 0:
+	case 1:
+		it.Next()
+	default:
+		for it.Next() {
+		}
+	}
+	w.pos = len(w.f.log())
+	var ferr error
+	if r.chance(2, 3) {
+		ferr = w.tx.Commit()
+	} else {
+		ferr = w.tx.Rollback()
+	}
+	finishes := 0
+	for _, ev := range w.f.log()[w.pos:] {
+		if ev.Kind == "commit" || ev.Kind == "rollback" {
+			finishes++
+			if ev.Conn != w.conn {
+				viol("C12", "finish-on-other-connection", ev.Kind)
+			}
+		}
+	}
+	if finishes != 1 || ferr != nil {
+		viol("C12", "not-exactly-one-finisher", fmt.Sprintf("with an Iterator of the transaction still open: %d finish events at the driver, the first finisher returned %v", finishes, ferr))
+	}
+	it.Close()
+	before := len(w.f.log())
+	e1, e2 := w.tx.Commit(), w.tx.Rollback()
+	if txErrClass(e1) != "txdone" || txErrClass(e2) != "txdone" || len(w.f.log()) != before {
+		viol("C12", "operation-after-end-did-not-fail-with-ErrTXDone", fmt.Sprint(e1, e2))
+	}
+}
+
 type txStats struct {
 	Later      int            `json:"scripts_with_a_later_transaction_open_after_the_finish"`
 	Cases      int            `json:"cases"`
@@ -557,6 +602,7 @@ func cmdTx(args []string) int {
 	for i := 0; i < *races; i++ {
 		txRace(r.fork(), addViol)
 		txFault(r.fork(), addViol)
+		txOpenIter(r.fork(), addViol)
 		st.Races++
 	}
 	cw.Flush()
